@@ -31,6 +31,7 @@ package crypto
 
 //@ func (*SessionKey).Encrypt
 //@ prop C01 C02
+//@ modifies s.sendNonce
 //@ check bounds lockset alloc
 //@ requires s.sendNonce < 18446744073709551615
 //@ ensures err == nil
@@ -43,6 +44,7 @@ package crypto
 
 //@ func (*SessionKey).Decrypt
 //@ prop C01
+//@ modifies s.recvNonce
 //@ check bounds lockset
 //@ ensures err == nil ==> len(ciphertext) >= 28
 //@ ensures err == nil ==> be32(ciphertext, 0) == dirword(!s.isInitiator)
@@ -85,3 +87,11 @@ package crypto
 //@ ensures result.key == kdf(sharedSecret, streamID, initiatorPub, responderPub)
 //@ ensures result.isInitiator == isInitiator
 //@ ensures result.sendNonce == 0 && result.recvNonce == 0
+
+// ---- C28: command signatures (Ed25519 idealised: A3) ----
+
+//@ ghost func sigValid(pub [32]byte, msg string, sig [64]byte) bool
+
+//@ func Verify
+//@ trusted A3: Ed25519 verification is a pure function of key, message and signature
+//@ ensures result == sigValid(publicKey, str(message), signature)
